@@ -52,15 +52,15 @@ type interpreter struct {
 	maxSteps int64
 
 	// side tables for modelled std types, keyed by object address
-	onces   map[*value]*onceModel
-	mutexes map[*value]*mutexModel
-	wgs     map[*value]*wgModel
-	pools   map[*value]*poolModel
-	ctxs    []*ctxModel
-	ro      []roRegion
+	onces    map[*value]*onceModel
+	mutexes  map[*value]*mutexModel
+	wgs      map[*value]*wgModel
+	pools    map[*value]*poolModel
+	ctxs     []*ctxModel
+	ro       []roRegion
 	counters map[string]int
-	nextID  int
-	fnSeen  map[*ssa.Function]bool
+	nextID   int
+	fnSeen   map[*ssa.Function]bool
 }
 
 type deferred struct {
@@ -140,7 +140,7 @@ func (i *interpreter) global(g *ssa.Global) *value {
 		} else if ov, ok := globalOverride(i, g); ok {
 			*i.globals[g] = ov
 		} else if !strings.HasSuffix(g.Name(), "init$guard") {
-			panic(pathAbort{kind: abortUnsupported, msg: "global of uninitialised package: " + g.String()})
+			panic(pathAbort{kind: abortUnsupported, msg: "global of uninitialised package: " + g.String() + i.where()})
 		}
 		return i.globals[g]
 	}
@@ -154,11 +154,21 @@ func (i *interpreter) global(g *ssa.Global) *value {
 			return addr
 		}
 		if !strings.HasSuffix(g.Name(), "init$guard") {
-			panic(pathAbort{kind: abortUnsupported, msg: "global of uninitialised package: " + g.String()})
+			panic(pathAbort{kind: abortUnsupported, msg: "global of uninitialised package: " + g.String() + i.where()})
 		}
 	}
 	i.globals[g] = addr
 	return addr
+}
+
+func (i *interpreter) where() string {
+	s := " [in"
+	n := 0
+	for f := i.curFrame(); f != nil && n < 8; f = f.caller {
+		s += " < " + f.fn.String()
+		n++
+	}
+	return s + "]"
 }
 
 func (i *interpreter) curFrame() *frame {
